@@ -6,7 +6,7 @@ set -e
 TREE=${1:-/repo}
 if [ "$TREE" = "/repo" ] && [ -d /repo/_build ]; then
     cmake --build /repo/_build >/dev/null
-    exec /repo/_build/test/st_gtests --gtest_brief=1
+    cd /repo/_build/test && exec ./st_gtests --gtest_brief=1
 fi
 OUT=$(mktemp -d /tmp/st_suite.XXXXXX)
 trap 'rm -rf "$OUT"' EXIT
@@ -19,4 +19,4 @@ for t in buffer string codecs iostream sstream format stdio regress; do
 done
 for p in "${pids[@]}"; do wait $p; done
 g++ "$OUT"/*.o /repo/_build/lib/libgtest.a /repo/_build/lib/libgtest_main.a -lpthread -o "$OUT/st_gtests"
-"$OUT/st_gtests" --gtest_brief=1
+cd "$OUT" && ./st_gtests --gtest_brief=1
